@@ -617,7 +617,7 @@ class Emitter:
                 fn = "%s.%s" % (self.ns, lid(name))
             elif rtxt in self.recv and name in self.recv[rtxt][1]:
                 fn = "%s.%s" % (self.recv[rtxt][0], lid(name))
-            elif name in COUNTER_FNS and self.ns != "Counter":
+            elif name in COUNTER_FNS and self.ns != "Counter" and len(args) == COUNTER_ARITY[name]:
                 fn = "Counter.%s" % lid(name)      # the only object with these methods is the crate's AtomicCounter
             else:
                 fn = "m_" + name
@@ -727,6 +727,7 @@ def T(ns, file, impl_pat, fns, self_ty, params=None, recv=None, consts=None, ext
 
 KNOWN = ["progress_and_get_begin_idx", "get", "fetch_n", "early_exit", "initial_len"]
 COUNTER_FNS = ["fetch_and_add", "fetch_and_increment", "current", "store", "swap"]
+COUNTER_ARITY = {"fetch_and_add": 1, "fetch_and_increment": 0, "current": 0, "store": 1, "swap": 1}
 
 TARGETS = [
     T("Counter", "iter/atomic_counter.rs", r"impl AtomicCounter", COUNTER_FNS, "CounterSelf"),
@@ -763,6 +764,12 @@ TARGETS = [
     T("BufRange", "iter/buffered/range.rs", r"BufferedChunk<Idx> for BufferedRange", ["chunk_size", "pull"], "BufSelf",
       params={"iter": "RangeSelf"}, recv={"iter": "Range"}),
 ]
+
+# the non-blocking functions of the wrapper over an arbitrary Iterator (the ticket protocol itself -- spin loop, lazy
+# iterator pipeline -- is outside the subset: it is the hand-written small-step model IW/Core.lean, tied by traces)
+TARGETS.append(T("Iter", "iter/implementors/iter.rs", r"impl<T: Send \+ Sync, Iter> ConIterOfIter", ["progress_yielded_counter", "mark_completed"], "IterSelf"))
+TARGETS.append(T("Iter", "iter/implementors/iter.rs", r"AtomicIter<T> for ConIterOfIter", ["counter", "early_exit"], "IterSelf"))
+TARGETS.append(T("Iter", "iter/implementors/iter.rs", r"ConcurrentIter for ConIterOfIter", ["try_get_len", "skip_to_end"], "IterSelf"))
 
 # cloned() / copied() over the slice iterator (vecref / arrref are slice iterators too)
 for (A, f, bf, big) in (("Cloned", "iter/cloned.rs", "iter/buffered/cloned_buffered_chunk.rs", "ClonedBufferedChunk"),
@@ -890,7 +897,7 @@ def main():
         for g in ("Cloned", "Copied"):
             if g in ns:
                 return "Adapt"
-        for g in ("Slice", "Vec", "Arr", "Range"):
+        for g in ("Slice", "Vec", "Arr", "Range", "Iter"):
             if ns.endswith(g):
                 return g
         raise SyntaxError("no group for " + name)
